@@ -1,0 +1,36 @@
+//go:build verif
+
+package openapi3filter
+
+// Contracts for the conversion of validation errors into the error responses of the validation
+// handler (C10: turning a rejected request into an error response must not panic either).
+// Comment-only; read by /verif/engine (govc). A request error carries the parameter *or* the request
+// body it is about (or neither: security, routing), never an assumption that one is set.
+
+// (a cause is an error value, never a nil *ParseError inside a non-nil interface: every site that
+// sets Cause wraps an error it has just received)
+//@ func convertParseError
+//@   requires e != nil && innerErr != nil
+//@   requires typeof(innerErr.Cause) == type *ParseError ==> innerErr.Cause.(*ParseError) != nil
+//@   modifies *
+//@   preserves all(openapi3), RequestError.*, ParseError.*
+//@   tag C10
+//@ func convertErrInvalidRequired
+//@   requires e != nil
+//@   modifies *
+//@   preserves all(openapi3), RequestError.*, ParseError.*
+//@   tag C10
+//@ func convertErrInvalidEmptyValue
+//@   requires e != nil
+//@   modifies *
+//@   preserves all(openapi3), RequestError.*, ParseError.*
+//@   tag C10
+//@ func convertBasicRequestError
+//@   requires e != nil
+//@   modifies *
+//@   preserves all(openapi3), RequestError.*, ParseError.*
+//@   tag C10
+//@ func (*ParseError).RootCause
+//@   modifies nothing
+//@ func (*RequestError).Error
+//@   modifies nothing
